@@ -1,4 +1,4 @@
-import Verif.Proofs.NumDecimal
+import Verif.Proofs.NumRoundP
 /-!
 # C08 — Number/Decimal shortening keeps the numeric value
 
@@ -23,6 +23,32 @@ theorem number_value (s : List Char) (p : Int) (hs : isNumber s = true) (hp : p 
 
 example : isNumber "+012.500e-3".toList = true ∧ (0 : Int) ≤ 0 := by decide
 
+
+/-- (c) `Number` maps the number grammar into itself, for every precision -/
+theorem number_grammar (s : List Char) (p : Int) (hs : isNumber s = true) : isNumber (number s p) = true := by
+  obtain ⟨l, hwf, rfl⟩ := exists_lex_of_isNumber hs
+  rcases number_lex l hwf p (fun m0 h => rnd_wf h p) with h | ⟨l', h1, h2, _, _⟩
+  · rw [h]; exact isNumber_str l hwf
+  · rw [← h2]; exact isNumber_str l' h1
+
+/-- (e) output shape: for a lexeme that does not start with `+` the first byte of the result of `Number`
+    is a digit, `.` or `-` (a lexeme with `+` can come back unchanged when its exponent is not an int64) -/
+theorem number_shape (s : List Char) (p : Int) (hs : isNumber s = true) (hplus : s.head? ≠ some '+') :
+    ∃ c t, number s p = c :: t ∧ (c.isDigit = true ∨ c = '.' ∨ c = '-') := by
+  obtain ⟨l, hwf, rfl⟩ := exists_lex_of_isNumber hs
+  rcases number_lex l hwf p (fun m0 h => rnd_wf h p) with h | ⟨l', h1, h2, h3, _⟩
+  · rw [h]; exact lex_head l hwf (lex_sg_of_head l hplus)
+  · rw [← h2]; exact lex_head l' h1 h3
+
+/-- (e) the same for `Decimal` -/
+theorem decimal_shape (s : List Char) (p : Int) (hs : isDecimal s = true) (hplus : s.head? ≠ some '+') :
+    ∃ c t, decimal s p = c :: t ∧ (c.isDigit = true ∨ c = '.' ∨ c = '-') := by
+  obtain ⟨l, hwf, rfl, hex⟩ := exists_lex_of_isDecimal hs
+  rcases decimal_lex l hwf hex p with h | ⟨l', h1, _, h3, h4, _⟩
+  · rw [h]; exact lex_head l hwf (lex_sg_of_head l hplus)
+  · rw [← h3]; exact lex_head l' h1 h4
+
+example : isNumber "-12.5e3".toList = true ∧ "-12.5e3".toList.head? ≠ some '+' := by decide
 
 /-- (a) the result of `Decimal` is never longer than its input — every byte string, every precision -/
 theorem decimal_length (s : List Char) (p : Int) : (decimal s p).length ≤ s.length :=
